@@ -15,7 +15,7 @@ def run(ctx):
     if ctx.replay:
         allb = [json.load(open(ctx.replay))["detail"]["behaviour"]]
     else:
-        for n, d in ctx.pick(((2, 3), (3, 3), (4, 2)), ((1, 6), (2, 5), (3, 4), (4, 3), (5, 3))):
+        for n, d in ctx.pick(((2, 3), (3, 3), (4, 2)), ((1, 5), (2, 4), (3, 3), (4, 3), (5, 2))):
             allb += ctx.behaviours("consensus", "Gen_VoteSet", "Gen_VoteSet.cfg",
                                    constants={"N": n, "MaxOps": d, "Depth": d}, timeout=600)
         for n in ctx.pick((1, 5, 7, 8), (1, 2, 3, 4, 5, 6, 7, 8, 10, 11)):
